@@ -26,12 +26,14 @@ THEOREMS = [
     "Docstring.reported_once", "Docstring.second_call_silent", "Docstring.doc_second_call", "Docstring.isolation",
     "Docstring.summary_fallback_touches_source", "Docstring.extract_spec",
     # the further wrappers (round 3)
-    "Docstring.pyval_raises_iff", "Docstring.pyval_failure_reported", "Docstring.signature_total",
-    "Docstring.signature_failure_reported", "Docstring.type_total_partial", "Docstring.typed_failure_escapes",
-    "Docstring.type_counterexample", "Docstring.constant_total_partial", "Docstring.class_signature_total_partial",
-    "Docstring.decorators_total_partial", "Docstring.getParsedType_cached",
-    "Docstring.search_raises_iff", "Docstring.search_total_partial", "Docstring.search_counterexample",
+    "Docstring.pyval_total", "Docstring.pyval_failure_reported", "Docstring.signature_total",
+    "Docstring.signature_failure_reported", "Docstring.type_total", "Docstring.constant_total",
+    "Docstring.class_signature_total", "Docstring.decorators_total", "Docstring.search_total",
+    "Docstring.xtotal", "Docstring.xrun_total", "Docstring.getParsedType_cached",
     "Docstring.loose_xstep", "Docstring.x_isolation", "Docstring.x_reported_once",
+    # historical, about the code before 4caea46 / e1378c4 (`…Old` definitions)
+    "Docstring.pyval_old_raises_iff", "Docstring.typed_failure_escaped_old", "Docstring.type_old_counterexample",
+    "Docstring.search_old_raises_iff", "Docstring.search_old_counterexample",
     # epytext pieces
     "Docstring.epytext_raises_iff_fatal",
     "Docstring.slugify_terminates", "Docstring.slugify_loops_without_distinct_candidates",
@@ -43,12 +45,6 @@ PARTIAL = {
         "before raising ParseError (epytext does: epytext_raises_iff_fatal) and the object was not reported before",
     "Docstring.render_failure_reported": "needs: the object was not reported before in this section "
         "(render_failure_masked_counterexample: an earlier docutils warning hides the renderer failure from the log)",
-    "Docstring.type_total_partial": "type2stan returns under FallbackSafe (whenever to_stan of a body raises, its to_node returns); FALSE "
-        "of HEAD for ParsedTypeDocstring bodies: typed_failure_escapes / type_counterexample, open finding type2stan:fallback-raises",
-    "Docstring.constant_total_partial": "same hypothesis; a ColorizedPyvalRepr always has a to_node, so no real input is excluded",
-    "Docstring.class_signature_total_partial": "same", "Docstring.decorators_total_partial": "same",
-    "Docstring.search_total_partial": "search.format_docstring returns if to_node raises nothing but NotImplementedError; FALSE of HEAD "
-        "otherwise: search_raises_iff / search_counterexample, open finding search:to_node-exception-escapes",
 }
 RULE = ("fault stream: the real epydoc2stan/markup functions run over stub parsers / stub ParsedDocstrings realising every "
         "outcome of every parameter (parser x processtypes step x to_stan x to_node x summary walk x toc builder x field "
@@ -1110,9 +1106,8 @@ def wrapper_failure(ctx: Ctx, t, inp, injected_pyval: bool) -> bool:
         ctx.fail("type2stan:fallback-raises", inp, "type2stan raised %s: to_stan of the type failed and colorized_pyval_fallback "
                  "calls to_node() without a handler (a ParsedTypeDocstring has no to_node)" % type(e).__name__)
         return True
-    if t["op"] in "cbr" and injected_pyval:
-        # a ColorizedPyvalRepr always has a to_node(): a stub whose to_node raises is outside that contract
-        ctx.count("fault:colorizer-contract-breach-injected")
+    if t["op"] in "cbr":
+        ctx.fail("%s:fallback-raises" % OP_NAMES[t["op"]], inp, "%s raised %s out of safe_to_stan's fallback" % (OP_NAMES[t["op"]], type(e).__name__))
         return True
     return False
 
@@ -1158,7 +1153,7 @@ def fault_oracle(ctx: Ctx, w: World, spec: Dict[str, Any], trace) -> None:
         touched |= {f[3] for f in p["F"] if len(f) > 3 and f[3] is not None}
     ann_now = {w.ids[n] for n in w.system.parse_errors.get("annotation", ())}
     for t in trace:
-        if t["op"] == "y" and t["raised"] is None and t["tok"] == "typ=code" and t["obj"] not in ann_now:
+        if t["op"] == "y" and t["raised"] is None and t["tok"] in ("typ=code", "typ=broken") and t["obj"] not in ann_now:
             fail("type:fallback-not-reported", "the type's to_stan failed (plain-text fallback shown) but nothing was reported in section annotation")
     sources = {spec_source(spec, i) for i in touched} | {PARENT[i] for i in touched if spec["objs"].get(i, {}).get("parsed") is not None}
     for i, o in enumerate(w.objs):
